@@ -806,6 +806,40 @@ Example C03_ex_file_read :
      (s2l "bht", s2l "DEGC", VInt 0, s2l "empty value with unit") ], "free text"%string, [], []).
 Proof. vm_compute. reflexivity. Qed.
 
+(* the theorem applied to it (every hypothesis discharged by computation): the first pass is as
+   the theorem describes, for every mnemonic_case *)
+Definition fx_dl : list N := match dsh_of fx_fmtv fx_fmt_pi ex_fstr fx_o fx_hs with Some d => d | None => [] end.
+Definition fx_rts : list (list N) :=
+  match opt_all (map (row_text fx_fmtv fx_fmt_pi fx_o (Some (s2l "-999.25")) 0%nat) (las_rows (hs_las fx_hs))) with
+  | Some r => r | None => [] end.
+
+Example C03_ex_file_theorem : forall c,
+  exists ps l,
+    first_pass (fx_ro c true) (lines_keep fx_text) ps0 (find_sections (lines_keep fx_text)) = inl ps /\
+    p_las ps = l /\ header_read_back ex_fstr (fx_ro c true) fx_hs l /\
+    version_of (p_version ps) = Some (hs_version fx_hs) /\
+    read fx_fhex ex_fstr fx_numeq (fx_ro c true) fx_text = ROk l.
+Proof.
+  intros c.
+  assert (Hw : write fx_fmtv fx_fmt_diff fx_fmt_pi ex_fstr fx_fzero fx_numeq fx_o ex_m = WOk fx_text (mkmlas (hs_las fx_hs) None))
+    by (vm_compute; reflexivity).
+  assert (Hs : write_sections fx_fmtv fx_fmt_diff ex_fstr fx_fzero fx_numeq (wo_version fx_o) (wo_wrap fx_o) (col_fmt fx_o 0%nat) ex_m = Some fx_hs)
+    by (vm_compute; reflexivity).
+  assert (Hdl : dsh_of fx_fmtv fx_fmt_pi ex_fstr fx_o fx_hs = Some fx_dl) by (vm_compute; reflexivity).
+  assert (Hnt : las_null_text ex_fstr (hs_las fx_hs) = Some (s2l "-999.25")) by (vm_compute; reflexivity).
+  assert (Hrts : opt_all (map (row_text fx_fmtv fx_fmt_pi fx_o (Some (s2l "-999.25")) 0%nat) (las_rows (hs_las fx_hs))) = Some fx_rts)
+    by (vm_compute; reflexivity).
+  assert (Hb : file_hypsb fx_fmtv fx_fmt_pi ex_fstr fx_fhex (fx_ro c true) fx_o fx_hs (s2l "-999.25") = true)
+    by (destruct c; vm_compute; reflexivity).
+  destruct (C03_file_hypsb_ok _ _ _ _ _ _ _ _ Hb) as ((vit & Hh) & Ht & _ & (_ & _ & _ & Hwr & Hl & Hsp & _) & Hd).
+  destruct (C03_file_roundtrip fx_fmtv fx_fmt_diff fx_fmt_pi ex_fstr fx_fzero fx_numeq fx_fhex (fx_ro c true) fx_o ex_m
+              fx_text (mkmlas (hs_las fx_hs) None) fx_hs fx_dl fx_rts vit (s2l "-999.25")
+              Hw Hs Hdl Hnt Hrts Hh Ht Hwr Hl Hsp Hd)
+    as (ps & l & _ & Hfp & Hl0 & Hrb & _ & Hv & _ & _ & _ & _ & _ & Hread).
+  exists ps, l. split; [exact Hfp|]. split; [exact Hl0|]. split; [exact Hrb|]. split; [exact Hv|].
+  apply Hread. reflexivity.
+Qed.
+
 Print Assumptions C03_written_text_lines.
 Print Assumptions C03_written_blocks_unfold.
 Print Assumptions C03_written_blocks_wf.
